@@ -7,7 +7,7 @@ Require Import Grist.Model.MetaCascade Grist.Proofs.MetaCascade_base Grist.Proof
   Grist.Proofs.MetaCascade_rm4 Grist.Proofs.MetaCascade_rm5
   Grist.Proofs.MetaCascade_add Grist.Proofs.MetaCascade_add2 Grist.Proofs.MetaCascade_add3
   Grist.Proofs.MetaCascade_add4 Grist.Proofs.MetaCascade_add5 Grist.Proofs.MetaCascade_add6
-  Grist.Proofs.MetaCascade_add7 Grist.Proofs.MetaCascade_regroup
+  Grist.Proofs.MetaCascade_add7 Grist.Proofs.MetaCascade_regroup Grist.Proofs.MetaCascade_regroup2
   Grist.Proofs.MetaCascade_upd Grist.Proofs.MetaCascade_upd2 Grist.Proofs.MetaCascade_upd3.
 Open Scope Z_scope.
 
@@ -43,6 +43,7 @@ Proof.
   - apply (set_custom_inv [] _ _ _ _ HI H).
   - apply (rename_table_inv _ _ _ _ HI H).
   - apply (create_summary_inv _ _ _ _ _ _ _ _ HI H).
+  - apply (remove_columns_regroup_inv _ _ _ _ HI H).
   - inversion H; subst. exact HI.
   - discriminate.
 Qed.
@@ -131,23 +132,10 @@ Qed.
 (* ---------------------------------------------------------------------------------------------- *)
 (* all modelled actions, update_summary_section under its guard *)
 
-Lemma remove_columns_regroup_guarded_inv : forall cols rs m m',
-  Inv m -> remove_columns_regroup_guarded cols rs m = Ok m' -> Inv m'.
-Proof.
-  intros cols rs m m' HI H. unfold remove_columns_regroup_guarded in H.
-  destruct (negb (all_in cols (cids m))); [discriminate|].
-  destruct (negb (nodupb cols)); [discriminate|].
-  destruct (existsb _ (m_columns m)); [discriminate|].
-  destruct (apply_regroups_guarded rs m) as [m1| |] eqn:E; simpl in H; try discriminate.
-  apply (remove_columns_core_inv [] cols m1 m'); [apply (apply_regroups_guarded_inv rs m m1 HI E) | exact H].
-Qed.
-
 Theorem step_guarded_inv : forall o m m', Inv m -> step_guarded o m = Ok m' -> Inv m'.
 Proof.
   intros o m m' HI H. destruct (regroups_op o) eqn:Er.
-  - destruct o; try discriminate Er; simpl in H.
-    + apply (apply_regroup_guarded_inv r m m' HI H).
-    + apply (remove_columns_regroup_guarded_inv cols rs m m' HI H).
+  - destruct o; try discriminate Er; simpl in H. apply (apply_regroup_inv r m m' HI H).
   - apply (step_inv o m m' Er HI). destruct o; try discriminate Er; exact H.
 Qed.
 
@@ -173,13 +161,7 @@ Qed.
 Lemma step_guarded_agrees : forall o m m', step_guarded o m = Ok m' -> step o m = Ok m'.
 Proof.
   intros o m m' H. destruct o; try exact H; simpl in *.
-  - apply apply_regroup_guarded_agrees. exact H.
-  - unfold remove_columns_regroup_guarded, remove_columns_regroup in *.
-    destruct (negb (all_in cols (cids m))); [discriminate|].
-    destruct (negb (nodupb cols)); [discriminate|].
-    destruct (existsb _ (m_columns m)); [discriminate|].
-    destruct (apply_regroups_guarded rs m) as [m1| |] eqn:E; simpl in H; try discriminate.
-    rewrite (apply_regroups_guarded_agrees rs m m1 E). simpl. exact H.
+  apply apply_regroup_agrees. exact H.
 Qed.
 
 Theorem run_bundle_guarded_agrees : forall os m m', run_bundle_guarded os m = Ok m' -> run_bundle os m = Ok m'.
